@@ -237,6 +237,55 @@ def conv (P Q : List Nat) (same : Bool) (v : Row) : Row := if same then v else r
 /-- the CAS lookup fails: `v` carries a chemical that `P` lacks -/
 def convBad (P Q : List Nat) (same : Bool) (v : Row) : Bool := !same && lacks P Q v
 
+/-! ### `copy_like`: what `mix_from` does with exactly one non-empty inlet when the energy balance is on -/
+
+/-- lower-case phase letters of a phase tuple joined (`PhaseIndexer._compatibility`) -/
+def compat (l : PhRows) : List Char := l.map (·.1.toLower)
+
+/-- `Stream.copy_like(x)` / `MultiStream.copy_like(x)`, material only (`r` and `x` different objects).
+A single-phase receiver takes over the phase tuple of the source; a multi-phase receiver is emptied, expanded
+when its phases cannot take the source's, and every source row is written to its phase (`pour` onto empty
+rows: two phases of one stream never resolve to the same row, so assigning and adding coincide). -/
+def copyLike (P Q : List Nat) (same : Bool) (r x : Strm) : Except Err Strm :=
+  let n := P.length
+  if x.ph.any (fun pr => convBad P Q same pr.2) then .error .undefinedChemical
+  else
+    let cs := x.ph.map (fun pr => (pr.1, tab n (conv P Q same pr.2).get))
+    if !r.multi then .ok { r with multi := x.multi, ph := cs }
+    else
+      let keep := if x.multi then r.ph.map (·.1) == x.ph.map (·.1) || compat r.ph == compat x.ph
+                  else x.ph.all (fun pr => (resolve r.ph pr.1).isSome)
+      let ph1 := if keep then r.ph else expand n r.ph (x.ph.map (·.1))
+      .ok { r with ph := pour n (ph1.map (fun pr => (pr.1, vzero n))) cs }
+
+/-- stream `i` exists and is not empty -/
+def World.liveAt (w : World) (i : Nat) : Bool :=
+  match w.strms[i]? with
+  | some x => !x.isEmpty
+  | none => false
+
+/-- `Stream.mix_from(others, energy_balance=eb)` (no `vle`, no `conserve_phases`): with the energy balance on,
+exactly one non-empty inlet is copied (`copy_like`) instead of mixed; the enthalpy bookkeeping itself
+(`self.H = H`) does not touch the material -/
+def mixE (w : World) (ri : Nat) (ins : List Nat) (eb : Bool) : Except Err World := do
+  let r ← w.get? ri
+  let _ ← getAll w ins
+  match ins.filter w.liveAt with
+  | [xi] =>
+    if !eb then mix w ri ins
+    else if xi = ri then .ok w                      -- `copy_like(self)`: nothing to copy
+    else do
+      let x ← w.get? xi
+      let r' ← copyLike (w.pkgOf r) (w.pkgOf x) (x.pkg == r.pkg) r x
+      .ok (w.setStrm ri r')
+  | _ => mix w ri ins
+
+/-- `Stream.sum(streams, thermo=pkg, energy_balance=eb)` -/
+def sumNewE (w : World) (pkg : Nat) (ins : List Nat) (eb : Bool) : Except Err World :=
+  let n := (w.pkgs.getD pkg []).length
+  let w1 := { w with strms := w.strms ++ [{ pkg := pkg, multi := false, ph := [('l', vzero n)] }] }
+  mixE w1 w.strms.length ins eb
+
 /-! ### separating -/
 
 /-- subtract `v` from the row of the first entry with phase `p` -/
@@ -308,8 +357,10 @@ def putSingle (P Q : List Nat) (same : Bool) (o : Strm) (v : Row) : Except Err S
 
 /-- `Stream.split_to` onto one outlet.  A multi-phase outlet first becomes a single-phase stream at the
 feed's phase (`s.phase = self.phase`, as the energy-balance branch does); its old content is overwritten anyway. -/
-def putOutlet (P Q : List Nat) (same : Bool) (fphase : Char) (o : Strm) (v : Row) : Except Err Strm :=
-  if o.multi then putSingle P Q same { o with multi := false, ph := [(fphase, o.total P.length)] } v
+def putOutlet (P Q : List Nat) (same : Bool) (fphase : Char) (relabel : Bool) (o : Strm) (v : Row) :
+    Except Err Strm :=
+  -- `energy_balance=True`: `s1.phase = s2.phase = self.phase` for every outlet
+  if o.multi || relabel then putSingle P Q same { o with multi := false, ph := [(fphase, o.total P.length)] } v
   else putSingle P Q same o v
 
 /-- `to_material_indexer(phases)`: move the non-empty rows of `src` to their phase (or its
@@ -329,7 +380,7 @@ def setPhases (n : Nat) (s : Strm) (phases : List Char) : Except Err Strm :=
   if s.multi && s.ph.map (·.1) == phases then .ok s
   else do
     let blank := phases.map (fun p => (p, vzero n))
-    let ph' ← moveRows n blank (!s.multi) s.ph
+    let ph' ← moveRows n blank false s.ph          -- only material needs a phase (also for a single-phase stream)
     .ok { s with multi := true, ph := ph' }
 
 /-- per-phase `self[phase].split_to(s1[phase], s2[phase], split)` onto one multi-phase outlet -/
@@ -341,14 +392,15 @@ def putPhases (P Q : List Nat) (same : Bool) : PhRows → Except Err PhRows
       let rs ← putPhases P Q same rest
       .ok ((p, tab P.length (conv P Q same v).get) :: rs)
 
-/-- `Stream.split_to / MultiStream.split_to (s1, s2, split, energy_balance=False)` -/
-def split (w : World) (fi ai bi : Nat) (sp : Split) : Except Err World := do
+/-- `Stream.split_to / MultiStream.split_to (s1, s2, split, energy_balance=eb)`: with the energy balance a
+multi-phase feed always gives multi-phase outlets and a single-phase feed gives outlets of its phase -/
+def split (w : World) (fi ai bi : Nat) (sp : Split) (eb : Bool) : Except Err World := do
   let f ← w.get? fi
   let a ← w.get? ai
   let b ← w.get? bi
   let Q := w.pkgOf f
   let n := Q.length
-  if f.multi && (a.multi || b.multi) then
+  if f.multi && (eb || a.multi || b.multi) then
     let phases := f.ph.map (·.1)
     let top := f.ph.map (fun pr => (pr.1, splitTop n sp pr.2))
     let bot := f.ph.map (fun pr => (pr.1, splitBot n sp pr.2))
@@ -365,10 +417,10 @@ def split (w : World) (fi ai bi : Nat) (sp : Split) : Except Err World := do
     .ok (w3.setStrm bi { b2 with ph := pb })
   else
     let m := f.total n
-    let a' ← putOutlet (w.pkgOf a) Q (a.pkg == f.pkg) f.phase a (splitTop n sp m)
+    let a' ← putOutlet (w.pkgOf a) Q (a.pkg == f.pkg) f.phase eb a (splitTop n sp m)
     let w1 := w.setStrm ai a'
     let b0 ← w1.get? bi
-    let b' ← putOutlet (w.pkgOf b0) Q (b0.pkg == f.pkg) f.phase b0 (splitBot n sp m)
+    let b' ← putOutlet (w.pkgOf b0) Q (b0.pkg == f.pkg) f.phase eb b0 (splitBot n sp m)
     .ok (w1.setStrm bi b')
 
 /-! ### copying flow -/
@@ -605,6 +657,9 @@ def divNew (w : World) (i : Nat) (k : Rat) : Except Err World := do
   if k = 0 then .error .rejected
   else .ok { w with strms := w.strms ++ [s.mapRows (vdiv (w.pkgOf s).length k)] }
 
+/-- `new = -stream` -/
+def negNew (w : World) (i : Nat) : Except Err World := mulNew w i (-1)
+
 /-- `stream.empty()` -/
 def emptyS (w : World) (i : Nat) : Except Err World := do
   let s ← w.get? i
@@ -664,12 +719,25 @@ def sepR (w : World) (xi : Nat) (y : Ref) : Except Err World := do
   let w2 ← sep w1 xi yi
   .ok (w2.trim w.strms.length)
 
-/-- `r.mix_from([...], energy_balance=False)` where inlets may be phase views -/
-def mixR (w : World) (ri : Nat) (ins : List Ref) : Except Err World := do
+/-- `r.mix_from([...], energy_balance=eb)` where inlets may be phase views -/
+def mixR (w : World) (ri : Nat) (ins : List Ref) (eb : Bool) : Except Err World := do
   if !ins.all (Ref.valid w.strms.length) then .error .rejected else
   let (w1, is) ← w.bindAll ins
-  let w2 ← mix w1 ri is
+  let w2 ← mixE w1 ri is eb
   .ok (w2.trim w.strms.length)
+
+/-! ### the enthalpy setter's phase flip (external numerics) -/
+
+/-- `Stream.H = H` relabels a gas stream as liquid (or the reverse) when the temperature solve fails in the
+current phase.  Whether it does is decided by the thermodynamic models, not by the material: the harness
+reports the label the code ended with and the model accepts it only as such a flip.  Flows are untouched. -/
+def flipPhase (w : World) (i : Nat) (p : Char) : World :=
+  match w.strms[i]? with
+  | some s =>
+    if !s.multi && ((s.phase == 'g' && p == 'l') || (s.phase == 'l' && p == 'g')) then
+      w.setStrm i { s with ph := match s.ph with | (_, r) :: rest => (p, r) :: rest | [] => [] }
+    else w
+  | none => w
 
 /-! ### observation -/
 
